@@ -2,6 +2,7 @@ package checks
 
 import (
 	"fmt"
+	"regexp"
 	"strings"
 	"testing"
 
@@ -209,7 +210,16 @@ func mixesTypes(e xast.Expr) bool {
 	return mixed
 }
 
+// smallPatternCache installs a two-entry pattern cache (a client may) for the duration of
+// a test, so that regex functions go through miss, insert, reset and failed loads all the time.
+func smallPatternCache() func() {
+	saved := xpath.RegexpCache
+	xpath.RegexpCache = xpath.NewLoadingCache(func(key interface{}) (interface{}, error) { return regexp.Compile(key.(string)) }, 2)
+	return func() { xpath.RegexpCache = saved }
+}
+
 func TestC15Rapid(t *testing.T) {
+	defer smallPatternCache()()
 	journal := harness.OpenJournal()
 	runRapid(t, uC15Rapid, func(rt *rapid.T) {
 		o := c15Doc()
@@ -271,6 +281,7 @@ func TestC15Rapid(t *testing.T) {
 }
 
 func TestC15Enum(t *testing.T) {
+	defer smallPatternCache()()
 	journal := harness.OpenJournal()
 	docs := []*xdoc.Doc{xdoc.MustParse("<a x='1'><a>{2}</a><b>{t}</b><!--c--></a>"), xdoc.MustParse("<b/>")}
 	argForms := []struct{ name, text string }{
